@@ -56,6 +56,15 @@ func diagText(resp *sb.Response) string {
 // checkCase runs the program on the case's backend (one sandbox request per backend so that a
 // crash is attributed to the right one) and applies the oracle.
 func checkCase(c Case) *pk.Failure {
+	if c.Backend == "both" { // replay files of defects present in both runtimes
+		for _, be := range []string{"vm", "tree"} {
+			c.Backend = be
+			if f := checkCase(c); f != nil {
+				return f
+			}
+		}
+		return nil
+	}
 	if c.Sub == "keys" {
 		return checkKeys(c)
 	}
@@ -317,7 +326,9 @@ func expectation(known, interrupt bool, exp []string) string {
 }
 
 // memberCase builds the program for recv.m(args) and its expectation.
-func memberCase(sub string, m Member, recv0 hs.Value, args []Arg) Case {
+// letNull binds the null result of a null-returning member (`let r = recv.push(1);` is legal: the
+// member must really deliver a null value) instead of calling it as a statement.
+func memberCase(sub string, m Member, recv0 hs.Value, args []Arg, letNull bool) Case {
 	recv := hs.DeepCopy(recv0)
 	p := &prog{}
 	p.lines = append(p.lines, bind("recv", recv, m.Recv, true)...)
@@ -336,6 +347,9 @@ func memberCase(sub string, m Member, recv0 hs.Value, args []Arg) Case {
 		ret = res.ret
 	}
 	switch {
+	case m.Ret.T.K == hs.KNull && letNull:
+		p.stmt("let r = %s;", access)
+		p.stmt("let r2 = r;")
 	case m.Ret.T.K == hs.KNull:
 		p.stmt("%s;", access)
 	case m.Ret.T.K == hs.KAny:
@@ -369,7 +383,11 @@ func memberCase(sub string, m Member, recv0 hs.Value, args []Arg) Case {
 		after = recv
 	}
 	p.use("recv", m.Recv, after, 1, "")
-	return Case{Sub: sub, Type: typeName(m.Recv), Kind: kindName(m.Recv), Member: m.Name, Recv: recvText(recv0), Args: argsText(args),
+	at := argsText(args)
+	if letNull {
+		at += " [let r = null result]"
+	}
+	return Case{Sub: sub, Type: typeName(m.Recv), Kind: kindName(m.Recv), Member: m.Name, Recv: recvText(recv0), Args: at,
 		Program: render(p.lines), Expect: expectation(res.known, res.interrupt, p.exp), Doubt: res.doubt}
 }
 
@@ -391,8 +409,11 @@ func memberCases(sub string, keep func(Member) bool) (cases []Case, nTypes, nMem
 				if len(tuples) > maxArgs {
 					maxArgs = len(tuples)
 				}
-				for _, args := range tuples {
-					cases = append(cases, memberCase(sub, m, recv, args))
+				for k, args := range tuples {
+					cases = append(cases, memberCase(sub, m, recv, args, false))
+					if m.IsFn && m.Ret.T.K == hs.KNull && (k == 0 || k == len(tuples)-1) {
+						cases = append(cases, memberCase(sub, m, recv, args, true))
+					}
 				}
 			}
 		}
@@ -569,6 +590,36 @@ func indexCases() []Case {
 							return true, false, ""
 						})
 					}
+					// concat copies the other list's elements: assigning to one list afterwards must
+					// not change the other
+					other := hs.DeepCopy(recv0).(*hs.ListV)
+					for _, sv := range sampleValues(*ty.Elem) {
+						if !hs.Equal(sv, other.Elems[len(other.Elems)-1]) {
+							nv = sv // the assignment must be visible
+						}
+					}
+					mk(ty, "concat;[]=", recv0, lit(other)+", "+lit(nv), func(p *prog, recv hs.Value) (bool, bool, string) {
+						l := recv.(*hs.ListV)
+						p.lines = append(p.lines, bind("other", other, ty, true)...)
+						p.lines = append(p.lines, bind("v", nv, *ty.Elem, true)...)
+						p.stmt("recv.concat(other);")
+						p.stmt("recv[-1] = v;")
+						l.Elems = append(l.Elems, other.Elems...)
+						l.Elems[len(l.Elems)-1] = nv
+						p.use("other", ty, other, 1, "")
+						p.use("recv", ty, recv, 1, "")
+						return true, false, ""
+					})
+					mk(ty, "concat(self);[]=", recv0, lit(nv), func(p *prog, recv hs.Value) (bool, bool, string) {
+						l := recv.(*hs.ListV)
+						p.lines = append(p.lines, bind("v", nv, *ty.Elem, true)...)
+						p.stmt("recv.concat(recv);")
+						p.stmt("recv[0] = v;")
+						l.Elems = append(l.Elems, l.Elems...)
+						l.Elems[0] = nv
+						p.use("recv", ty, recv, 1, "")
+						return true, false, ""
+					})
 				}
 			}
 		case hs.KStr:
